@@ -363,7 +363,8 @@ theorem C03_file_read_sound (blocks : Nat → Bytes) (segs : List Seg)
 loadManifest (any number of streams, files, tokens), over a verified block store whose blocks have
 the sizes the locators name: every file's segments are non-empty and inside their blocks, and for
 every file, every starting pointer satisfying the pointer invariant (in particular a fresh handle)
-and **every** sequence of `Read(n)` / `Seek(off)` calls, the calls all return, and their results
+and **every** sequence of `Read(n)` / `Seek(off, whence)` calls (SeekStart, SeekCurrent, SeekEnd, any signed
+offset; a negative target fails and leaves the handle where it was), the calls all return, and their results
 are those of a plain file holding `fileContent` — each Read delivers the bytes at the handle's
 offset (at least one unless nothing was asked or the offset is at the end, never more than asked),
 advances the offset by what it delivered, and reports EOF only when the request reaches beyond
@@ -380,6 +381,22 @@ theorem C03_file_sequence {ι : Type} [BEq ι] (blocks : Nat → Bytes) (size : 
   have hwf := loadManifestN_wf size streams hstreams [] (by simp) files hload f hf
   obtain ⟨hpos, hin⟩ := segsWF_pos_in size blocks hlen f.2 hwf
   exact ⟨hpos, hin, fun p hok ops => runFile_follows blocks f.2 hin hpos ops p hok⟩
+
+/-- **filehandle.Seek, every whence.** The position reported is the target offset (`off`, `pos + off`,
+`size + off`) and is the handle's new offset; the call fails exactly when the target is negative and then
+changes nothing; the pointer invariant is kept (a changed offset always marks the pointer stale, so the
+next Read recomputes the segment position from the offset — it is never advanced incrementally by Seek);
+SeekStart with a non-negative offset is `fileSeek`. -/
+theorem C03_seek_whence (segs : List Seg) (size : Nat) (p : Ptr) (w : Whence) (off : Int) (hok : PtrOK segs p) :
+    PtrOK segs (fileSeekW size p w off).1 ∧
+    (fileSeekW size p w off).1.off = seekPos size p.off w off ∧
+    ((fileSeekW size p w off).2 = none ↔ seekTarget size p.off w off < 0) ∧
+    (∀ n, (fileSeekW size p w off).2 = some n → (fileSeekW size p w off).1.off = n ∧
+      (n : Int) = seekTarget size p.off w off) ∧
+    ((fileSeekW size p w off).2 = none → (fileSeekW size p w off).1 = p) ∧
+    (∀ n : Nat, fileSeekW size p .start (n : Int) = (fileSeek p n, some n)) :=
+  ⟨ptrOK_fileSeekW segs size p w off hok, fileSeekW_off size p w off, (fileSeekW_pos size p w off).1,
+   (fileSeekW_pos size p w off).2.1, (fileSeekW_pos size p w off).2.2, fun n => fileSeekW_start size p n⟩
 
 /-- One File.Read, exactly: before the end of the file it returns `min(len p, bytes left in the
 segment holding the offset)` bytes — the flat content at the offset — and at or beyond the end
@@ -491,6 +508,16 @@ example :
         (fun files => files.map (fun f => (f.1, runFile (vRead exBlocks) f.2 {} [.read 3, .seek 1, .read 10, .read 1, .read 1])))
       : Option (List (Nat × Option (List (Bytes × Option Err))))) =
       some [(7, some [([2], none), ([3, 4], none), ([3], none), ([], some .eof)])] := by
+  rfl
+
+/-- relative seeks on a file of three 3-byte segments: read 1, skip ahead 4 into the next segment
+(SeekCurrent), read; skip over a whole segment; SeekEnd −2; a negative target leaves the handle alone -/
+example :
+    runFile (vRead (fun i => [10 * i.toUInt8, 10 * i.toUInt8 + 1, 10 * i.toUInt8 + 2]))
+      [⟨0, 0, 3⟩, ⟨1, 0, 3⟩, ⟨2, 0, 3⟩] {}
+      [.read 1, .seekW .cur 4, .read 2, .seekW .cur (-5), .read 1, .seekW .cur 6, .read 5,
+       .seekW .fromEnd (-2), .read 1, .seekW .cur (-20), .read 5] =
+      some [([0], none), ([12], none), ([1], none), ([22], some .eof), ([21], none), ([22], some .eof)] := by
   rfl
 
 /-- F3a witnesses in the model: a hint of 2^31 answered without Content-Length, and a hint-less locator
